@@ -5,6 +5,7 @@ LEVEL = "exploration"
 
 
 def run(c):
+    c.prove(["Properties_C08.v"])      # the model-level part of the contract (see the file header); the run-time part follows
     q = c.tier == "quick"
     session_check.run_sessions(c, (sessions.RS28, sessions.RS2M, sessions.LDPC), {"C08"}, 500 if q else 6000, 700 if q else 10000, big=not q)
     c.cov["explanation"] = ("malloc/calloc/realloc/free are wrapped at link time; after of_release_codec_instance and after the application freed exactly what the API says "
